@@ -1,6 +1,6 @@
 (* Extraction of the executable models (ExtrOcamlBasic only; Z, nat, positive stay Coq datatypes). *)
 From Coq Require Import ZArith List Bool.
-From MV Require Import Prelude.Py Gen.TieredTime Gen.UpdateMin Time.Spec Static.Groups Static.Connect Static.Build Static.Cycle Static.CycleP Static.CycleC Static.Attrs Sched.Timing Sched.Plane Sched.Link Sched.Certify Sched.Quiet Sched.Bound Sched.PullRun Ext.Adapters Ext.Util Ext.RT.
+From MV Require Import Prelude.Py Gen.TieredTime Gen.UpdateMin Time.Spec Static.Groups Static.Connect Static.Build Static.Cycle Static.CycleP Static.CycleC Static.Attrs Sched.Timing Sched.Plane Sched.Link Sched.Certify Sched.Quiet Sched.Bound Sched.PullRun Sched.EventRun Ext.Adapters Ext.Util Ext.RT.
 Require Extraction.
 Require Import ExtrOcamlBasic.
 Extraction Language OCaml.
@@ -15,7 +15,7 @@ Extraction "../build/model.ml"
   wfGb group_path gdepth connect_interval connect_one should_reject is_rejected mkF
   (* scheduler *)
   mkStatic mkDStatic init_state init_dstate apply dapply all_done failing_guards begin_preview enabled_sims prog nexts cur pc
-  prepare mkScen mkConn build ancestors check_static check_static2 flat_certified uniform_certified init_before_untilb check_bound pull_strictb wk_indel uni_indel cov_indel cycle_check walk_delay izero
+  prepare mkScen mkConn build ancestors check_static check_static2 flat_certified uniform_certified init_before_untilb check_bound pull_strictb push_strictb wk_indel uni_indel cov_indel cycle_check walk_delay izero
   Attrs.parse_attrs Attrs.parse_set_triple isub iand ior seqb mem mkDesc
   start deliver meta_type mkStart
   connect_evenly connect_randomly_uneven connected_set connect_many_to_one
